@@ -18,7 +18,7 @@ generated separately): attenuation 0..255, RSSI -120..-47, C/I -1280..1280, ToA2
 FN (quick set / all).  Three base points (low / mid / high) fix the other wide fields, the burst
 pattern and - for Tx and v0 Rx - the burst length.
 
-Which point gets which group, per tier, is decided in `chunks()` and described by `rule(tier)`.
+Which point gets which group, per tier, is decided in `plan()` and described by `rule(tier)`.
 """
 from array import array
 
